@@ -28,7 +28,11 @@ func (returning Returning) Build(builder Builder) {
 func (returning Returning) MergeClause(clause *Clause) {
 	if v, ok := clause.Expression.(Returning); ok && len(returning.Columns) > 0 {
 		if v.Columns != nil {
-			returning.Columns = append(v.Columns, returning.Columns...)
+			// copy, so that the columns of the clause being extended (which may belong to a
+			// reusable handle) are not overwritten through a shared backing array
+			copiedColumns := make([]Column, len(v.Columns), len(v.Columns)+len(returning.Columns))
+			copy(copiedColumns, v.Columns)
+			returning.Columns = append(copiedColumns, returning.Columns...)
 		} else {
 			returning.Columns = nil
 		}
